@@ -9,6 +9,9 @@ Oracles (vf/oracle_c11_sig.py, on shadows and plain data only):
   O2  accepted item of any kind: every generated extension is well-formed and well-typed over a signature that
       the harness builds itself from the history of observed extensions (cross-checked with the theory's tables)
   O3  parse_item(export_json(x)) and parse_edit(get_display(x)) compared with x field by field
+  O4  accepted item of kind `type.ind`: <name>_induct is, modulo bound names, the structural induction theorem over the
+      declared type (hypotheses exactly for the arguments of that type); directed family type.ind:non-uniform offers
+      datatypes with an argument that is the datatype at another type instance (no hypothesis may be generated for it)
 """
 import copy, io, json, contextlib
 from vf import shadow as S
@@ -44,12 +47,14 @@ REQUIRED = {'quick': {'library_items_accepted': 4000, 'library_defs_judged': 140
                       'O1_definitions_judged': 1500, 'O2_statements_checked': 12000, 'O3_json_roundtrips': 8000,
                       'O3_edit_roundtrips': 8000, 'gen_def_hostile_rejected': 800, 'gen_items_accepted': 4000,
                       'gen_items_rejected': 1500, 'sig_crosschecks': 40,
-                      'multiocc_definitions': 800, 'multiocc_accepted_and_judged_by_O1': 250},
+                      'multiocc_definitions': 800, 'multiocc_accepted_and_judged_by_O1': 250,
+                      'nonuniform_datatypes_accepted': 60, 'O4_induct_theorems_of_non_uniform_datatypes_judged': 60},
             'thorough': {'library_items_accepted': 4000, 'library_defs_judged': 140, 'library_theories': 43,
                          'O1_definitions_judged': 30000, 'O2_statements_checked': 150000, 'O3_json_roundtrips': 100000,
                          'O3_edit_roundtrips': 100000, 'gen_def_hostile_rejected': 15000, 'gen_items_accepted': 80000,
                          'gen_items_rejected': 30000, 'sig_crosschecks': 40,
-                         'multiocc_definitions': 15000, 'multiocc_accepted_and_judged_by_O1': 5000}}
+                         'multiocc_definitions': 15000, 'multiocc_accepted_and_judged_by_O1': 5000,
+                         'nonuniform_datatypes_accepted': 1500, 'O4_induct_theorems_of_non_uniform_datatypes_judged': 1500}}
 SHARD_TIMEOUT = {'quick': 900, 'thorough': 7200}
 BASE = 'list'
 
@@ -100,6 +105,18 @@ def feature_tag(f):
             if len(argTs) != len(anames):
                 return ':constructor-argument-names-do-not-match-its-type'
     return ''
+
+
+def nonuniform_arguments(f):
+    """constructor arguments of a type.ind item that are the datatype itself at an instance other than the declared one"""
+    T = ('tc', f['name'], tuple(('tv', a) for a in f['args']))
+    out = []
+    for cname, cT, _, anames in f['constrs']:
+        argTs, _res = GEN.strip_fun(cT)
+        for A in argTs[:len(anames)]:
+            if A[0] == 'tc' and A[1] == f['name'] and A != T:
+                out.append((cname, A))
+    return out
 
 
 THM_KINDS = ('_induct', '_neq', '_inject', '_cases', '_def')
@@ -206,7 +223,24 @@ class Driver:
         c('O2_extensions_checked', len(rexts))
         seen = set()
         tag = feature_tag(fields)
+        # ---------------- O4 (datatypes): <name>_induct is the structural induction theorem over the declared type
+        if ty == 'type.ind' and not tag.startswith(':constructor-') and fields.get('constrs') is not None:
+            nu = nonuniform_arguments(fields)
+            c('O4_induct_theorems_judged')
+            if nu:
+                c('O4_induct_theorems_of_non_uniform_datatypes_judged')
+                c('O4_arguments_at_another_instance_of_the_datatype', len(nu))
+            iprobs = O.induct_problems(fields, rexts)
+            if not iprobs:
+                c('O4_induct_theorems_as_expected')
+            for key, text in iprobs:
+                if nu and key == 'induction-hypothesis-for-a-non-recursive-argument':
+                    key += ':argument-is-the-datatype-at-another-type-instance'
+                seen.add('induct')
+                self.violation('ext:type.ind:induct:%s' % key, 'accepted item %s: %s' % (what, text), witness, raw)
         for key, text in probs:
+            if 'induct' in seen and thm_kind(text) == ':induct':
+                continue                            # already reported by O4 with its root cause
             key = key + thm_kind(text)
             if tag.startswith(':constructor-'):
                 key = 'ill-formed-extension'       # one root cause (the malformed constructor was accepted), one key
@@ -424,6 +458,14 @@ def run_sequence(ctx, base_thy, base_sig, family, descs, witness_extra=None, bas
                 ctx.count('gen_def_hostile_accepted' if acc else 'gen_def_hostile_rejected')
         else:
             ctx.count('plain_%s_%s' % (fam, 'accepted' if acc else 'rejected'))
+        if d.get('_nonuniform'):
+            shape, layout, direct = d['_nonuniform']
+            ctx.count('nonuniform_datatypes')
+            ctx.count('nonuniform_datatypes_' + ('accepted' if acc else 'rejected'))
+            ctx.count('nonuniform_shape_%s_%s' % (shape, 'accepted' if acc else 'rejected'))
+            ctx.count('nonuniform_layout_%s' % layout)
+            if direct and acc:
+                ctx.count('nonuniform_accepted_with_argument_that_is_itself_another_instance')
         if d.get('_multi'):
             ctx.count('multiocc_%s_%s' % (d['_multi'], 'accepted' if acc else 'rejected'))
             ctx.count('multiocc_definitions')
